@@ -245,8 +245,16 @@ class MemoFinder:
                             site.weak[pb] = f"self.{sa} is compared but " \
                                             f"never refreshed"
                         elif self._is_copy_of(snap, b):
-                            site.covered[pb] = f"value (== stored copy " \
-                                               f"self.{sa})"
+                            red = _reduction(test, n)
+                            if red is None:
+                                site.covered[pb] = f"value (== stored " \
+                                                   f"copy self.{sa})"
+                            else:
+                                site.weak[pb] = (
+                                    f"the elementwise comparison with the "
+                                    f"stored copy self.{sa} is reduced by "
+                                    f"{red}: the value is kept although "
+                                    f"some entries of {pb} changed")
                         elif src(snap) == src(b):
                             site.weak[pb] = (f"self.{sa} aliases {pb} "
                                              f"(no copy): in-place changes "
@@ -277,6 +285,43 @@ class MemoFinder:
                     snap.args and src(snap.args[0]) == src(p):
                 return True
         return False
+
+
+def _reduction(test, cmp) -> Optional[str]:
+    """How the elementwise comparison `cmp` (== / !=) inside the refresh
+    condition `test` is reduced to a truth value.  The refresh has to happen
+    as soon as ONE entry differs: '(a != b).any()' or 'not (a == b).all()'
+    (and the np.any / np.all / np.array_equal spellings).  Returns None when
+    the reduction is of that kind (or there is none: scalar comparison), else
+    a description of the wrong reduction."""
+    parent = {}
+    for p in ast.walk(test):
+        for c in ast.iter_child_nodes(p):
+            parent[id(c)] = p
+    red, node = None, cmp
+    p = parent.get(id(node))
+    if isinstance(p, ast.Attribute) and p.attr in ("any", "all") and \
+            isinstance(parent.get(id(p)), ast.Call) and \
+            parent[id(p)].func is p:
+        red, node = p.attr, parent[id(p)]
+    elif isinstance(p, ast.Call) and node in p.args and \
+            src(p.func).split(".")[-1] in ("any", "all"):
+        red, node = src(p.func).split(".")[-1], p
+    if red is None:
+        return None
+    neg = False
+    p = parent.get(id(node))
+    while p is not None:
+        if isinstance(p, ast.UnaryOp) and isinstance(p.op, ast.Not):
+            neg = not neg
+        elif not isinstance(p, ast.BoolOp):
+            break
+        p = parent.get(id(p))
+    differs = isinstance(cmp.ops[0], ast.NotEq)
+    if (differs, red, neg) in ((True, "any", False), (False, "all", True)):
+        return None
+    return (("not " if neg else "") + f"'.{red}()' over "
+            f"'{'!=' if differs else '=='}'")
 
 
 ARRAY_ATTRS = {"shape", "copy", "T", "dtype", "size", "ndim", "astype",
